@@ -250,13 +250,15 @@ pub fn cells_to_array<'a>(ty: &ColTy, cells: impl Iterator<Item = &'a Cell>) -> 
             Arc::new(b.finish())
         }
         ColTy::ListI32 => {
-            let mut b = ListBuilder::new(Int32Builder::new());
+            // NOTE: built as List<Int64> on purpose (see `widen_lists`): SQL integer literals are
+            // Int64 and DataFusion's array_has_any fails at run time on List<Int32> vs List<Int64>.
+            let mut b = ListBuilder::new(Int64Builder::new());
             for c in cells {
                 match c {
                     Cell::List(v) => {
                         for x in v {
                             match x {
-                                Cell::Int(i) => b.values().append_value(*i as i32),
+                                Cell::Int(i) => b.values().append_value(*i as i64),
                                 _ => b.values().append_null(),
                             }
                         }
@@ -287,6 +289,26 @@ pub fn random_spec(rng: &mut Rng, pool: &[ColTy], n: usize) -> TableSpec {
         });
     }
     TableSpec { cols }
+}
+
+/// Cast every List<Int32> column of a generated batch to List<Int64> (see cells_to_array).
+pub fn widen_lists(b: &RecordBatch) -> RecordBatch {
+    use arrow_schema::{Field, Schema};
+    let mut fields = vec![];
+    let mut cols = vec![];
+    for (f, c) in b.schema().fields().iter().zip(b.columns()) {
+        if let DataType::List(item) = f.data_type() {
+            if item.data_type() == &DataType::Int32 {
+                let nt = DataType::List(Arc::new(Field::new("item", DataType::Int64, true)));
+                cols.push(arrow_cast::cast(c, &nt).expect("widen list"));
+                fields.push(Field::new(f.name(), nt, f.is_nullable()));
+                continue;
+            }
+        }
+        fields.push(f.as_ref().clone());
+        cols.push(c.clone());
+    }
+    RecordBatch::try_new(Arc::new(Schema::new(fields)), cols).expect("widen_lists")
 }
 
 pub fn storage_version_name(v: LanceFileVersion) -> &'static str {
@@ -629,6 +651,116 @@ impl Pred {
         }
     }
 
+    /// Negation normal form (valid in three-valued logic): NOT is pushed to the leaves; comparison
+    /// operators, IN / BETWEEN / IS NULL flags are flipped; `IS ...` atoms and boolean columns keep
+    /// an explicit Not.
+    pub fn nnf(&self, positive: bool) -> Pred {
+        let neg_op = |o: CmpOp| match o {
+            CmpOp::Eq => CmpOp::Ne,
+            CmpOp::Ne => CmpOp::Eq,
+            CmpOp::Lt => CmpOp::Ge,
+            CmpOp::Le => CmpOp::Gt,
+            CmpOp::Gt => CmpOp::Le,
+            CmpOp::Ge => CmpOp::Lt,
+        };
+        match self {
+            Pred::Not(p) => p.nnf(!positive),
+            Pred::And(a, b) => {
+                if positive {
+                    Pred::And(Box::new(a.nnf(true)), Box::new(b.nnf(true)))
+                } else {
+                    Pred::Or(Box::new(a.nnf(false)), Box::new(b.nnf(false)))
+                }
+            }
+            Pred::Or(a, b) => {
+                if positive {
+                    Pred::Or(Box::new(a.nnf(true)), Box::new(b.nnf(true)))
+                } else {
+                    Pred::And(Box::new(a.nnf(false)), Box::new(b.nnf(false)))
+                }
+            }
+            _ if positive => self.clone(),
+            Pred::Cmp { col, op, lit, lit_left } => Pred::Cmp { col: *col, op: neg_op(*op), lit: lit.clone(), lit_left: *lit_left },
+            Pred::ColCmp { a, op, b } => Pred::ColCmp { a: *a, op: neg_op(*op), b: *b },
+            Pred::Between { col, lo, hi, neg } => Pred::Between { col: *col, lo: lo.clone(), hi: hi.clone(), neg: !*neg },
+            Pred::In { col, lits, neg } => Pred::In { col: *col, lits: lits.clone(), neg: !*neg },
+            Pred::IsNull { col, neg } => Pred::IsNull { col: *col, neg: !*neg },
+            Pred::Is(p, k) => Pred::Is(
+                p.clone(),
+                match k {
+                    IsKind::True => IsKind::NotTrue,
+                    IsKind::NotTrue => IsKind::True,
+                    IsKind::False => IsKind::NotFalse,
+                    IsKind::NotFalse => IsKind::False,
+                },
+            ),
+            other => Pred::Not(Box::new(other.clone())),
+        }
+    }
+
+    /// On a tree in NNF: within one AND-chain, a pair `x <(=) a` ... `x >(=) b` on the same column
+    /// with the upper bound written first and mixed strictness. Returns (column, a, b).
+    pub fn upper_first_mixed_ranges(&self, out: &mut Vec<(usize, Lit, Lit)>) {
+        fn flatten<'a>(p: &'a Pred, v: &mut Vec<&'a Pred>) {
+            match p {
+                Pred::And(l, r) => {
+                    flatten(l, v);
+                    flatten(r, v);
+                }
+                other => v.push(other),
+            }
+        }
+        match self {
+            Pred::And(..) => {
+                let mut v = vec![];
+                flatten(self, &mut v);
+                for (i, l) in v.iter().enumerate() {
+                    for r in v[i + 1..].iter() {
+                        if let (Pred::Cmp { col: c1, op: o1, lit: a, .. }, Pred::Cmp { col: c2, op: o2, lit: b, .. }) = (l, r) {
+                            if c1 == c2 && matches!((o1, o2), (CmpOp::Lt, CmpOp::Ge) | (CmpOp::Le, CmpOp::Gt)) {
+                                out.push((*c1, a.clone(), b.clone()));
+                            }
+                        }
+                    }
+                }
+                for p in v {
+                    if !matches!(p, Pred::Cmp { .. }) {
+                        p.upper_first_mixed_ranges(out);
+                    }
+                }
+            }
+            Pred::Or(l, r) => {
+                l.upper_first_mixed_ranges(out);
+                r.upper_first_mixed_ranges(out);
+            }
+            Pred::Not(p) | Pred::Is(p, _) => p.upper_first_mixed_ranges(out),
+            _ => {}
+        }
+    }
+
+    /// DataFusion's in-list simplifier merges IN / NOT IN / = / <> leaves on the same column
+    /// (`x NOT IN A OR x NOT IN B` -> `x NOT IN (A ∩ B)`, `x NOT IN A AND x IN B` -> `x IN (B − A)`)
+    /// without regard to NULL semantics. Pattern: two equality/IN leaves on one column, at least one
+    /// of them negated (in NNF).
+    pub fn has_mergeable_inlists_same_column(&self) -> bool {
+        fn collect(p: &Pred, out: &mut Vec<(usize, bool)>) {
+            match p {
+                Pred::Cmp { col, op: CmpOp::Eq, .. } => out.push((*col, false)),
+                Pred::Cmp { col, op: CmpOp::Ne, .. } => out.push((*col, true)),
+                Pred::In { col, neg, .. } => out.push((*col, *neg)),
+                Pred::And(a, b) | Pred::Or(a, b) => {
+                    collect(a, out);
+                    collect(b, out);
+                }
+                Pred::Not(p) | Pred::Is(p, _) => collect(p, out),
+                _ => {}
+            }
+        }
+        let mut v = vec![];
+        collect(&self.nnf(true), &mut v);
+        v.iter().enumerate().any(|(i, (c, n))| v[i + 1..].iter().any(|(c2, n2)| c == c2 && (*n || *n2)))
+    }
+
     /// true if some literal of the tree is a NaN
     pub fn has_nan_literal(&self) -> bool {
         let nan = |l: &Lit| matches!(l, Lit::Float(f) if f.is_nan());
@@ -672,7 +804,12 @@ impl Pred {
                     out.push(("bool", *c));
                 }
             }
-            Pred::IsNull { .. } | Pred::ColCmp { .. } | Pred::Contains { .. } | Pred::ArrayHas { .. } => {}
+            Pred::ArrayHas { col, .. } => {
+                if !positive {
+                    out.push(("array_has", *col));
+                }
+            }
+            Pred::IsNull { .. } | Pred::ColCmp { .. } | Pred::Contains { .. } => {}
             Pred::Is(p, k) => match k {
                 IsKind::True | IsKind::NotFalse => p.negated_leaves(positive, out),
                 IsKind::False | IsKind::NotTrue => p.negated_leaves(!positive, out),
@@ -827,15 +964,35 @@ pub fn ref_ids(p: &Pred, m: &Model) -> BTreeSet<i64> {
 
 pub struct DfRef {
     ctx: SessionContext,
+    batch: RecordBatch,
+    df_schema: datafusion::common::DFSchema,
 }
 
 impl DfRef {
     pub fn new(batch: RecordBatch) -> Result<Self, String> {
         let ctx = SessionContext::new();
-        ctx.register_batch("t", batch).map_err(|e| e.to_string())?;
-        Ok(Self { ctx })
+        ctx.register_batch("t", batch.clone()).map_err(|e| e.to_string())?;
+        let df_schema = datafusion::common::DFSchema::try_from(batch.schema().as_ref().clone()).map_err(|e| e.to_string())?;
+        Ok(Self { ctx, batch, df_schema })
     }
+    /// Reference (b): the predicate is parsed by DataFusion's SQL front end, type-coerced and
+    /// evaluated row by row by its physical expression evaluator over the Arrow batch — *without*
+    /// the logical optimizer / simplifier (whose rewrites are part of what Lance is checked against:
+    /// Lance runs the same simplifier on its filters).
     pub async fn ids_where(&self, where_sql: &str) -> Result<BTreeSet<i64>, String> {
+        use arrow_array::cast::AsArray;
+        let expr = self.ctx.parse_sql_expr(where_sql, &self.df_schema).map_err(|e| format!("parse: {e}"))?;
+        let phys = self.ctx.create_physical_expr(expr, &self.df_schema).map_err(|e| format!("plan: {e}"))?;
+        let n = self.batch.num_rows();
+        let v = phys.evaluate(&self.batch).map_err(|e| format!("eval: {e}"))?;
+        let arr = v.into_array(n).map_err(|e| format!("eval: {e}"))?;
+        let b = arr.as_boolean_opt().ok_or_else(|| format!("predicate is {:?}, not boolean", arr.data_type()))?;
+        let ids = self.batch.column(0).as_any().downcast_ref::<Int64Array>().ok_or("id column not Int64")?;
+        Ok((0..n).filter(|i| b.is_valid(*i) && b.value(*i)).map(|i| ids.value(i)).collect())
+    }
+    /// The same predicate through DataFusion's complete SQL pipeline (optimizer included). Only
+    /// used to attribute a deviation of Lance to a rewrite it shares with DataFusion.
+    pub async fn ids_where_full_sql(&self, where_sql: &str) -> Result<BTreeSet<i64>, String> {
         Ok(self.ids_query(&format!("SELECT id FROM t WHERE {where_sql}")).await?.into_iter().collect())
     }
     pub async fn ids_query(&self, sql: &str) -> Result<Vec<i64>, String> {
@@ -1053,6 +1210,12 @@ impl<'a> PredGen<'a> {
                 let mut lits: Vec<Lit> = vec![];
                 for _ in 0..n {
                     let mut l = self.lit_for(rng, col);
+                    // NULL elements inside IN lists are left out: DataFusion's in-list simplifier
+                    // (shared by Lance) merges lists without regard to NULL elements — a rare
+                    // construct and an upstream matter (see NOTES.md)
+                    while l.is_null() {
+                        l = self.lit_for(rng, col);
+                    }
                     // Lance coerces an IN list element-wise, DataFusion unifies the list type first:
                     // keep one literal class per list (ints for int columns, floats for float columns)
                     if class == Class::Int {
@@ -1305,6 +1468,9 @@ pub fn classify_err(e: &lance::Error) -> ScanErr {
     }
 }
 
+/// Location of the most recent panic (set by the hook in main.rs); best effort, for witnesses.
+pub static LAST_PANIC: std::sync::Mutex<String> = std::sync::Mutex::new(String::new());
+
 pub const OP_TIMEOUT: Duration = Duration::from_secs(120);
 
 /// Run a future with panic capture and a watchdog.
@@ -1323,10 +1489,24 @@ where
             } else {
                 "panic".to_string()
             };
-            Err(ScanErr::Failed(format!("panic: {msg}")))
+            let loc = LAST_PANIC.lock().map(|g| g.clone()).unwrap_or_default();
+            Err(ScanErr::Failed(format!("panic: {msg} [at {loc}]")))
         }
         Ok(Ok(Err(e))) => Err(classify_err(&e)),
         Ok(Ok(Ok(v))) => Ok(v),
+    }
+}
+
+/// Run a maintenance / write operation with panic capture and watchdog; errors as strings.
+pub async fn guarded_op<T, F>(what: &str, f: F) -> Result<T, String>
+where
+    F: std::future::Future<Output = lance::Result<T>>,
+{
+    match guarded(f).await {
+        Ok(v) => Ok(v),
+        Err(ScanErr::Rejected(e)) => Err(format!("{what}: rejected: {e}")),
+        Err(ScanErr::Failed(e)) => Err(format!("{what}: failed: {e}")),
+        Err(ScanErr::Timeout) => Err(format!("{what}: timeout")),
     }
 }
 
